@@ -17,6 +17,9 @@ Proof.
   - apply (H a eq_refl).
   - eauto.
 Qed.
+Lemma runs_then {A B} (m : W A) (k : A -> W B) w :
+  runs m w -> (forall a w1, runs (k a) w1) -> runs (wbind m k) w.
+Proof. intros (r & w1 & E) H. eapply runs_bind; [exact E|]. intros a _. apply H. Qed.
 Lemma runs_ret {A} (a : A) w : runs (wret a) w. Proof. unfold runs, wret. eauto. Qed.
 Lemma runs_fail {A} e w : runs (@wfail A e) w. Proof. unfold runs, wfail. eauto. Qed.
 Lemma runs_val {A} (m : W A) w r w1 : m w = Val (r, w1) -> runs m w. Proof. unfold runs. eauto. Qed.
@@ -64,6 +67,33 @@ Proof.
   intros (r & E & F). exists (OK (match r with OK a => Some a | ER _ => None end)).
   split; [apply wtry_val; exact E|]. intros o [= <-]. destruct r; [apply F; reflexivity|exact I].
 Qed.
+
+(* progress with a postcondition on result and final world *)
+Definition runsQ {A} (m : W A) (w : world) (Q : out A -> world -> Prop) : Prop :=
+  exists r w', m w = Val (r, w') /\ Q r w'.
+Lemma runsQ_runs {A} (m : W A) w Q : runsQ m w Q -> runs m w.
+Proof. intros (r & w' & E & _). eapply runs_val; eauto. Qed.
+Lemma runsQ_bind_runs {A B} (m : W A) (k : A -> W B) w Q :
+  runsQ m w Q -> (forall a w1, Q (OK a) w1 -> runs (k a) w1) -> runs (wbind m k) w.
+Proof. intros (r & w1 & E & HQ) H. eapply runs_bind; [exact E|]. intros a ->. eapply H; eauto. Qed.
+Lemma runsQ_bind {A B} (m : W A) (k : A -> W B) w Q (R : out B -> world -> Prop) :
+  runsQ m w Q -> (forall a w1, Q (OK a) w1 -> runsQ (k a) w1 R) -> (forall e w1, Q (ER e) w1 -> R (ER e) w1) ->
+  runsQ (wbind m k) w R.
+Proof.
+  intros (r & w1 & E & HQ) H HE. unfold runsQ, wbind. rewrite E. destruct r as [a|e].
+  - apply (H a w1 HQ).
+  - exists (ER e), w1. split; [reflexivity|]. apply HE. exact HQ.
+Qed.
+Lemma runsQ_weaken {A} (m : W A) w (Q R : out A -> world -> Prop) :
+  runsQ m w Q -> (forall r w1, Q r w1 -> R r w1) -> runsQ m w R.
+Proof. intros (r & w1 & E & HQ) H. exists r, w1. split; [exact E|]. apply H. exact HQ. Qed.
+Lemma runsQ_val {A} (m : W A) w r w1 (Q : out A -> world -> Prop) : m w = Val (r, w1) -> Q r w1 -> runsQ m w Q.
+Proof. intros E H. exists r, w1. auto. Qed.
+Lemma rd_runsQ {A} (m : W A) w P : rd m w P -> runsQ m w (fun r w1 => w1 = w /\ forall a, r = OK a -> P a).
+Proof. intros (r & E & F). exists r, w. auto. Qed.
+Lemma runsQ_try {A} (m : W A) w Q :
+  runsQ m w Q -> runsQ (wtry m) w (fun r w1 => exists r0, Q r0 w1 /\ r = OK (match r0 with OK a => Some a | ER _ => None end)).
+Proof. intros (r & w1 & E & HQ). exists (OK (match r with OK a => Some a | ER _ => None end)), w1. split; [apply wtry_val; exact E|eauto]. Qed.
 
 (* ------------------------------------------------------------------ tables *)
 Section Spec12.
